@@ -297,15 +297,20 @@ Definition parse_edge (fuel : nat) (e : env) (lx : lexer) (ps : pstate) : pres (
     let edge1 := mkEdge rule eenv the_pool out_paths implicit_outs in_paths' implicit order_only'
                         val_paths [] in
     do dyndep <- lres_to_pres (get_unescaped st1 edge1 s_dyndep);
+    (* "if (edge->env_ == env_) edge->env_ = new BindingEnv(env_);" : an edge with a dyndep binding
+       and no block of its own (the binding comes from the rule) is given a scope of its own *)
+    let fresh := negb (b_empty dyndep) && negb has_indent in
+    let st2 := if fresh then st1 ++ [empty_scope] else st1 in
+    let eenv2 := if fresh then length st1 :: e else eenv in
     do edge2 <-
        (if b_empty dyndep then P_ok edge1
         else
           let dd := canon dyndep in
           if mem_bytes dd in_paths' then
-            P_ok (mkEdge rule eenv the_pool out_paths implicit_outs in_paths' implicit order_only'
+            P_ok (mkEdge rule eenv2 the_pool out_paths implicit_outs in_paths' implicit order_only'
                          val_paths dd)
           else lex_error lx11 E_dyndep_not_input);
-    P_ok (lx11, mkPS st1 (ps_pools ps) (edge2 :: ps_edges ps)
+    P_ok (lx11, mkPS st2 (ps_pools ps) (edge2 :: ps_edges ps)
                      (val_paths ++ in_paths ++ out_paths ++ ps_nodes ps)
                      (out_paths ++ ps_outs ps) (ps_defaults ps) (ps_subflags ps))
   end.
